@@ -723,12 +723,33 @@ func (i *interpreter) mutexLock(fr *frame, p *value) {
 	i.S.yield(fr.g, "lock")
 	if !m.locked && m.readers == 0 {
 		m.locked = true
+		i.yieldHoldingObserved(fr)
 		return
 	}
 	m.waitq = append(m.waitq, fr.g)
 	m.wwait++
 	i.S.park(fr.g, "mutex lock")
 	// ownership was handed over by the unlocker
+	i.yieldHoldingObserved(fr)
+}
+
+// yieldHoldingObserved: a mutex whose state some code observes with TryLock
+// may be seen held, so another goroutine may run right after the acquisition.
+func (i *interpreter) yieldHoldingObserved(fr *frame) {
+	if len(i.L.tryLockFields) == 0 || fr == nil {
+		return
+	}
+	// fr is the (empty) frame of the native Lock; the call is the caller's current instruction
+	if fr.caller == nil {
+		return
+	}
+	ci, ok := fr.caller.cur.(ssa.CallInstruction)
+	if !ok || len(ci.Common().Args) == 0 {
+		return
+	}
+	if k := mutexFieldKey(ci.Common().Args[0]); k != "" && i.L.tryLockFields[k] {
+		i.S.yield(fr.g, "locked")
+	}
 }
 
 func (i *interpreter) mutexTryLock(fr *frame, p *value) bool {
